@@ -1333,6 +1333,7 @@ func ruleCmpShape(c *Ctx) {
 						continue
 					}
 					if !reachableAfter(b, call)[r] {
+						bad = "the success return at " + b.posOf(r) + " is taken without this decode having run: two equal texts that are not objects (1 and 1, [1] and [1]) get a patch instead of being rejected"
 						continue
 					}
 					if ok, why := b.successDominates(call, r); !ok {
